@@ -148,9 +148,12 @@ def _tokens(s):
 
 
 class Expr:
-    """integer expressions over shapes / scalars / locals -> Lean `Int` terms"""
+    """integer expressions over shapes / scalars / locals -> Lean `Int` terms (`py=True`: Python expressions over
+    the dicts `S` (shape fields `name_k`) and `V` (scalar arguments), used by the harness to rebuild the kernel
+    call of a recorded wrapper call from the CURRENT .pyx text)"""
 
-    def __init__(self, w, locals_):
+    def __init__(self, w, locals_, py=False):
+        self.py = py
         self.bufs = {a["name"]: a for a in w["args"] if a["kind"] == "buf"}
         self.scalars = {a["name"]: a for a in w["args"] if a["kind"] == "scalar"}
         self.locals = locals_
@@ -194,7 +197,7 @@ class Expr:
             self.eat(")")
             return e
         if tok.isdigit():
-            return f"({tok} : Int)"
+            return tok if self.py else f"({tok} : Int)"
         if tok.endswith(".shape"):
             b = tok[:-6]
             if b not in self.bufs:
@@ -204,20 +207,22 @@ class Expr:
             self.eat("]")
             if k >= self.bufs[b]["ndim"]:
                 raise PyxError(f"{self.wname}: {b}.shape[{k}] beyond ndim")
-            return f"(s.{b}_{k} : Int)"
+            return f"S['{b}_{k}']" if self.py else f"(s.{b}_{k} : Int)"
         if tok in self.locals:
             return self.locals[tok]
         if tok in self.scalars:
             if self.scalars[tok]["ctype"] not in INT_TYPES:
                 raise PyxError(f"{self.wname}: non-integer scalar {tok} in an integer expression")
-            return f"v.{tok}"
+            return f"V['{tok}']" if self.py else f"v.{tok}"
         raise PyxError(f"{self.wname}: unknown name {tok!r} in an integer expression")
 
 
 def analyse(w, externs):
     """-> dict with everything the Lean text needs for wrapper `w` (None for wrappers without a kernel call)"""
     locals_, carrays, asserts, reductions, call = {}, {}, [], [], None
+    pylocals, pyasserts = {}, []
     ex = Expr(w, locals_)
+    pex = Expr(w, pylocals, py=True)
     bufs = {a["name"]: a for a in w["args"] if a["kind"] == "buf"}
     for st in w["body"]:
         if st.startswith("cdef "):
@@ -234,6 +239,7 @@ def analyse(w, externs):
                 raise PyxError(f"{w['name']}: cannot parse assert {body!r}")
             op = {"==": "=", "<=": "≤", ">=": "≥", "<": "<", ">": ">"}[m.group(2)]
             asserts.append((f"{ex.parse(m.group(1))} {op} {ex.parse(m.group(3))}", body))
+            pyasserts.append(f"{pex.parse(m.group(1))} {m.group(2)} {pex.parse(m.group(3))}")
             continue
         m = re.match(r"(?:ierr\s*=\s*|return\s+)?(c_\w+)\((.*)\)$", st)
         if m and m.group(1) in externs:
@@ -250,6 +256,7 @@ def analyse(w, externs):
         m = re.match(r"(\w+)\s*=\s*(.+)$", st)
         if m and "(" not in m.group(2).replace(".shape[", ""):
             locals_[m.group(1)] = ex.parse(m.group(2))
+            pylocals[m.group(1)] = pex.parse(m.group(2))
             continue
         raise PyxError(f"{w['name']}: statement not understood: {st!r}")
     if call is None:
@@ -258,7 +265,7 @@ def analyse(w, externs):
     proto = externs[callee]
     if len(actuals) != len(proto["params"]):
         raise PyxError(f"{w['name']}: {callee} called with {len(actuals)} arguments, prototype has {len(proto['params'])}")
-    fields, intfit = [], []
+    fields, intfit, pyfields = [], [], []
     for p, a in zip(proto["params"], actuals):
         if p["ptr"]:
             m = re.match(r"<\s*([\w ]+?)\s*\*\s*>\s*np\.PyArray_DATA\((\w+)\)$", a)
@@ -271,22 +278,31 @@ def analyse(w, externs):
                                    f"{m.group(1)!r}, buffer {bufs[b]['ctype']!r}, prototype {p['ctype']!r}")
                 ext = " * ".join(f"s.{b}_{k}" for k in range(bufs[b]["ndim"]))
                 fields.append((p["name"], ext))
+                pyfields.append((p["name"], "buf", b, " * ".join(f"S['{b}_{k}']" for k in range(bufs[b]["ndim"]))))
             elif a in carrays:
                 fields.append((p["name"], str(carrays[a])))
+                pyfields.append((p["name"], "carray", a, str(carrays[a])))
             else:
                 raise PyxError(f"{w['name']}: pointer argument {a!r} of {callee} not understood")
         elif p["ctype"] in INT_TYPES:
             e = ex.parse(a)
             fields.append((p["name"], e))
+            pyfields.append((p["name"], "int", None, pex.parse(a)))
             if p["ctype"] == "int" and "s." in e:
                 intfit.append(f"{e} ≤ 2147483647")
         elif p["ctype"] == "double":
+            if not re.match(r"\w+$", a):
+                raise PyxError(f"{w['name']}: double argument {a!r} of {callee} is not a plain name")
+            pyfields.append((p["name"], "double", a, None))
             continue
         else:
             raise PyxError(f"{w['name']}: parameter type {p['ctype']!r} of {callee} not handled")
     return {"name": w["name"], "file": w["file"], "bufs": [a for a in w["args"] if a["kind"] == "buf"],
             "scalars": [a for a in w["args"] if a["kind"] == "scalar" and a["ctype"] in INT_TYPES],
-            "asserts": asserts, "reductions": reductions, "callee": callee, "fields": fields, "intfit": intfit}
+            "asserts": asserts, "reductions": reductions, "callee": callee, "fields": fields, "intfit": intfit,
+            "pyfields": pyfields, "pyasserts": pyasserts,
+            "pyreductions": sorted({f"S['{b}_{k}'] >= 1" for b, k, _ in reductions}), "argnames": [a["name"] for a in w["args"]],
+            "argkinds": {a["name"]: (a["kind"], a.get("ctype"), a.get("ndim")) for a in w["args"]}}
 
 
 # ---------------------------------------------------------------------------------------------
